@@ -401,6 +401,17 @@ func (dp *DataProcessor) processWindowBatch(batch []types.Row) {
 				results = append(results, m)
 			}
 		}
+		// The window emitted the aggregates of compound items (sum(v)/count(*))
+		// under their placeholders: evaluate the items and drop the placeholders.
+		if pp, ok := dp.stream.aggregator.(interface {
+			PostProcessResults([]map[string]any) ([]map[string]any, error)
+		}); ok {
+			if processed, err := pp.PostProcessResults(results); err == nil {
+				results = processed
+			} else {
+				dp.stream.log.Error("post-aggregation error: %v", err)
+			}
+		}
 		dp.processAggregationResults(results)
 		return
 	}
